@@ -9,7 +9,8 @@ EXPLANATION = ("C18: (R1) the comment scan: the two 21-byte prefixes, slice reac
                "sides use the standard padded base64 alphabet; (R3) data: references go to decode_data_url; (R4) the detection "
                "predicate, evaluated over all 256 key-presence combinations, is true for what each writer always writes; (R8) the reader form of the predicate passes a header-less document through the streaming stripper unchanged whatever the chunking; (R9) the consumer of the data URL is the regular decoder (accumulators, range-mapping reader: shared with C02)."
                " (R0, R0b) the accessor table and the encoder's duplicate-skip (the data-URL round trip writes through them)."
-               " (R9c/R9d) the VLQ reader accepts the writer's whole range and (R9e) decode_regular rejects only for the reviewed reasons, so the data URL the library writes is one it reads.")
+               " (R9c/R9d) the VLQ reader accepts the writer's whole range and (R9e) decode_regular rejects only for the reviewed reasons, so the data URL the library writes is one it reads."
+               " (R10) the root-joined name cache stays coherent with root and raw names, so the map that is written is the map that is shown.")
 NOT_DECIDED = "first-match over all texts as a value-level statement (BufRead::lines is trusted); equality of the decoded map."
 
 
@@ -21,6 +22,9 @@ def r5(ctx):
 
 
 RULES = {
+    # what is written is raw names + root: the names the map shows must stay coherent with them after set_source_root /
+    # set_source, or the data URL decodes to a map with other sources
+    "C18.R10": lambda ctx: __import__("rules.bldrules", fromlist=["x"]).cache_coherence(ctx, "C18.R10"),
     "C18.RG": lambda ctx: __import__("rules.foundations", fromlist=["x"]).no_global_state(ctx, "C18.RG"),
     # the data-URL round trip writes through the accessors and iterators of the map
     "C18.R0": lambda ctx: __import__("rules.foundations", fromlist=["x"]).accessors(ctx, "C18.R0", None),
